@@ -13,7 +13,7 @@ completeness of `push` on the WEAK state invariant (Props/C01CompleteObs.lean, t
 hypothesis): an own step fails only where the mapping is undefined — or a capacity check fires (`NoCap` excludes those;
 `C18_capacity_blame` says where they are reported).  State hypotheses of the theorems: `WFH` (weak state invariant) and
 `NoDictKey` (no dictionary-keyed dictionary) — both hold of every state reached from a builder `build_builder` constructs,
-for EVERY schema (`Build.runRows_rowsH`), and are implied by the former hypotheses `WFB`, `Safe` (`WFH_of_WFB`,
+for EVERY schema (`Build.runRows_rowsH`), and are implied by the stronger `WFB`, `Safe` (`WFH_of_WFB`,
 `NoDictKey_of_Safe`).
 -/
 namespace SaModel.Props.C18
@@ -33,9 +33,9 @@ next `push` — for EVERY serde value without raw key / value streams: `Some` / 
 call, bytes, sequences, tuples, tuple structs, struct records, maps (into struct builders and into map builders), unit /
 newtype / tuple / struct variants, nested arbitrarily, into EVERY builder family — is annotated `field` = `render path
 segs`, `data_type` = the label of the type at `segs`, for a position `segs` of the schema that `Spec.blameDT` blames for
-this value.  No exception (the former cell `dict_null_cell` is gone with repo fix ca6f255, see `dict_null_repaired`; the
-cell `tuple_variant_list_cell`, where `Spec.blameDT` named only the variant's column for a failing element of a tuple
-variant presented to a list-typed variant column, was a coarse arm of the SPECIFICATION and is repaired there). -/
+this value.  No exception (a `None` for a non-nullable dictionary column: `dict_null_repaired`, repo fix ca6f255; a
+failing element of a tuple variant presented to a list-typed variant column: `tuple_variant_list_cell`, where
+`Spec.blameDT` blames the element column as for a tuple presented to a list column directly). -/
 theorem C18_ser_blame (ext : Ext) [ExtPlain ext] (dt : DataType) (path : String) (n : Bool) (md : Metadata)
     (b0 : B) (h0 : newDT path dt n md = .ok b0) (rows : List SVal) (b : B) (hb : rows.foldlM (push ext) b0 = .ok b)
     (x : SVal)
@@ -182,10 +182,11 @@ example :
 presented to the variant's column (a list), and so does the crate: `UnionBuilder::serialize_tuple_variant` hands
 `serialize_tuple_struct` to the variant's `ListBuilder`, whose element builder refuses the string and is named —
 `$.u.B.element` / `Int32`, the innermost field (confirmed on the real crate: corpus case
-`corpus/build/c18_tuple_variant_list.jsonl`).  Before this repair the catch-all arm of `Spec.blameDT` for a tuple variant
-whose column is not a struct answered `[{path}.{variant}, {path}]` = `["$.u.B", "$.u"]`: only ANCESTORS of the field that
-failed — the reading the property text rules out ("never … only of an ancestor when a deeper field failed").  The arm now
-blames the tuple AT the variant's column, as for a tuple presented to a list / fixed-size-list column directly. -/
+`corpus/build/c18_tuple_variant_list.jsonl`).  `Spec.blameDT` blames the tuple AT the variant's column, as for a tuple
+presented to a list / fixed-size-list column directly.  The answer of the catch-all arm for a tuple variant whose column
+is neither a struct nor a list, `[{path}.{variant}, {path}]` = `["$.u.B", "$.u"]`, would name only ANCESTORS of the field
+that failed here — the reading the property text rules out ("never … only of an ancestor when a deeper field failed"): third
+conjunct. -/
 theorem tuple_variant_list_cell :
     blameRow {} exSchema3 (.record "R" (.cons "a" 0 (.int .i32 1)
       (.cons "u" 1 (.tupleVariant "E" 1 "B" (.cons (.int .i32 1) (.cons (.str "x") .nil))) .nil))) = ["$.u.B.element"] ∧
@@ -202,7 +203,7 @@ def isFlatOwner : B → Bool
   | .bytes _ _ _ _ _ | .bytesView _ _ _ _ _ => true
   | _ => false
 
-/-- the scalar calls (`serialize_unit_struct` is none any more: since repo fix ae2fc46 its default forwards to
+/-- the scalar calls (`serialize_unit_struct` is not one of them: with repo fix ae2fc46 its default forwards to
 `serialize_unit`, the null path — `pushNone`, which touches no capacity-limited counter) -/
 def isScalarCall : SVal → Bool
   | .bool _ | .int _ _ | .f32 _ | .f64 _ | .char _ | .str _ | .bytes _ => true
@@ -446,10 +447,10 @@ example :
     .error (.errCtx "offset overflow" [("data_type", "Map(..)"), ("field", "$.m")]) := by
   decide +kernel
 
-/-! ### the former cell `dict_null_cell` (repo fix ca6f255) -/
+/-! ### `None` into a non-nullable dictionary column (repo fix ca6f255) -/
 
 /-- **Repaired** (`dict_null_repaired`): `d: Dictionary(Int8, Utf8)`, not nullable, receives `None`.  `Spec.blameDT`
-blames the column `$.d` (the documented mapping has no null for this FIELD), and so does the crate now:
+blames the column `$.d` (the documented mapping has no null for this FIELD), and so does the crate:
 `DictionaryUtf8Builder::serialize_none` checks the nullability of its key builder and raises the error itself, under
 the dictionary's own path and type (a null is a value of the dictionary FIELD — nullability is a property of `d`; no
 child has been handed anything when the dictionary builder's own code refuses it).  The row is inside every hypothesis
